@@ -172,3 +172,34 @@ def key_safe(base, key, pc):
         if key in keys:
             return True
     return False
+
+
+def poly(t, subst=None):
+    """integer polynomial of a term: {monomial: coefficient}, a monomial being the sorted tuple of its symbol terms;
+    `subst` maps terms to polynomials (e.g. a loop cursor to its closed form)"""
+    subst = subst or {}
+    t = strip_ids(t)
+    if t in subst:
+        return dict(subst[t])
+    if is_const(t) and isinstance(cval(t), int) and not isinstance(cval(t), bool):
+        return {(): cval(t)} if cval(t) else {}
+    if t[0] == 'add':
+        out = {}
+        for x in t[1]:
+            for m, c in poly(x, subst).items():
+                out[m] = out.get(m, 0) + c
+        return {m: c for m, c in out.items() if c}
+    if t[0] == 'bin' and t[1] in ('-', '*'):
+        a, b = poly(t[2], subst), poly(t[3], subst)
+        if t[1] == '-':
+            out = dict(a)
+            for m, c in b.items():
+                out[m] = out.get(m, 0) - c
+        else:
+            out = {}
+            for m1, c1 in a.items():
+                for m2, c2 in b.items():
+                    m = tuple(sorted(m1 + m2, key=repr))
+                    out[m] = out.get(m, 0) + c1 * c2
+        return {m: c for m, c in out.items() if c}
+    return {(t,): 1}
